@@ -31,7 +31,7 @@ import (
 // Req is one request.
 type Req struct {
 	ID       string   `json:"id"`
-	Mode     string   `json:"mode"` // prog (default) | tokens | parse | session | conc | surface | runsource
+	Mode     string   `json:"mode"` // prog (default) | tokens | parse | session | conc | surface | runsource | repl | replchunks
 	Src      string   `json:"src"`
 	Stdin    string   `json:"stdin"`
 	Fuel     int64    `json:"fuel"`
@@ -654,6 +654,10 @@ func handle(rq *Req) *Resp {
 		return doSurface(rq)
 	case "runsource":
 		return doRunSource(rq)
+	case "repl":
+		return doRepl(rq)
+	case "replchunks":
+		return doReplChunks(rq)
 	}
 	return &Resp{ID: rq.ID, End: "harness-error:unknown mode " + rq.Mode}
 }
